@@ -373,6 +373,71 @@ fn case_interleaved(input: &Input, ctx: &mut Ctx) -> CaseResult {
     }
 }
 
+/// Every decoder entry point called where applications call it: inside a task of a tokio runtime whose cooperative
+/// budget is used up (the normal state of a busy connection task). The blocking and the poll decoders drive their body
+/// decoders with a `block_on` of their own; if anything underneath answers Pending with a wake-up that only the runtime
+/// can deliver, the thread parks for good. Inputs: strings of the shared corpus and PUBLISH frames with payloads around
+/// and above 64 KiB / 1 MiB, complete or cut short. "Never returns" is decided by `tokioctx` (a thread that sleeps
+/// without consuming CPU for five seconds with nothing that could wake it), never by a time budget.
+fn case_in_tokio(input: &Input, ctx: &mut Ctx) -> CaseResult {
+    let mut t = Tape::new(input.tape());
+    let cfg = crate::gen::cfg_mix(&mut t, ctx.thorough);
+    let v5 = t.flag();
+    let (b, origin): (Vec<u8>, &str) = if t.chance(1, 4) {
+        let rl = [65_530usize, 65_536, 65_600, 70_000, 131_072, 1_048_576 + 7][t.pick(6)] + t.pick(3);
+        let mut e = if v5 {
+            V5::encode(&crate::checks::c01::sized_publish::<V5>(rl)).map(|x| x.as_ref().to_vec()).unwrap_or_default()
+        } else {
+            V3::encode(&crate::checks::c01::sized_publish::<V3>(rl)).map(|x| x.as_ref().to_vec()).unwrap_or_default()
+        };
+        match t.pick(3) {
+            0 => {}
+            1 => e.truncate(e.len() - 1 - t.pick(200)),
+            _ => e.extend_from_slice(&[0xC0, 0x00]),
+        }
+        (e, "large-publish")
+    } else if v5 {
+        corpus::gen_input::<V5>(&mut t, &cfg)
+    } else {
+        corpus::gen_input::<V3>(&mut t, &cfg)
+    };
+    fn all<F: Family>(b: &[u8]) -> (String, String, String) {
+        let blocking = format!("{:?}", F::decode(b).map(|o| o.map(|q| fam::render(&q).len())));
+        let asy = format!("{:?}", fam::dec_async::<F>(b).0.map(|q| fam::render(&q).len()));
+        let poll = format!("{:?}", fam::dec_poll::<F>(b).result.map(|o| (o.total, fam::render(&o.pkt).len())));
+        let _ = F::header_decode(b);
+        let _ = F::body_level_decode(b);
+        (blocking, asy, poll)
+    }
+    let outside = if v5 { all::<V5>(&b) } else { all::<V3>(&b) };
+    let b2 = b.clone();
+    let inside = crate::tokioctx::in_exhausted_task(move || if v5 { all::<V5>(&b2) } else { all::<V3>(&b2) });
+    use crate::tokioctx::Outcome;
+    match inside {
+        Outcome::Done(r) => {
+            if r != outside {
+                return Err(crate::run::Violation::new(format!("decoding {} ({} bytes, {}) inside a tokio task whose budget is used up gives (blocking, async, poll) = {:?}; outside a runtime {:?}", hex_short(&b, 48), b.len(), origin, r, outside)));
+            }
+        }
+        Outcome::Panicked(m) => return Err(crate::run::Violation::new(format!("decoding {} ({} bytes, {}) inside a tokio task panicked: {}", hex_short(&b, 48), b.len(), origin, m))),
+        Outcome::Parked => {
+            return Err(crate::run::Violation::new(format!(
+                "decoding {} ({} bytes, {}) inside a tokio task whose cooperative budget is used up never returns: the thread is parked (asleep, no CPU consumed for 5 s) and nothing exists that could wake it; outside a runtime the same calls give {:?}",
+                hex_short(&b, 48), b.len(), origin, outside
+            )))
+        }
+        Outcome::Inconclusive => return Err(crate::run::Violation::new("MQV-INTERNAL a decode inside a tokio task was still consuming CPU after ten minutes")),
+    }
+    ctx.label("decoded-inside-a-tokio-task");
+    ctx.label(&format!("in-task:{}", origin));
+    ctx.count_distinct(1);
+    if origin == "large-publish" {
+        ctx.sample(|| format!("{} PUBLISH frame of {} bytes: {:?} inside a tokio task with its budget used up, as outside", if v5 { "v5" } else { "v3" }, b.len(), outside.0));
+    }
+    Ok(())
+}
+
+pub const SUB_TOKIO: Sub = Sub { name: "c03.inside-tokio-task", f: case_in_tokio };
 pub const SUB_INTER: Sub = Sub { name: "c03.interleaved", f: case_interleaved };
 pub const SUB_OBS: Sub = Sub { name: "c03.state-observation", f: case_state_observation };
 
@@ -467,7 +532,7 @@ pub const SUB_BLOCK: Sub = Sub { name: "c03.short-strings", f: case_block };
 pub const SUB_HB: Sub = Sub { name: "c03.header-body", f: case_header_body };
 
 pub fn subs() -> Vec<Sub> {
-    vec![SUB_TAPE, SUB_BYTES, SUB_BLOCK, SUB_HB, SUB_OBS, SUB_DECL, SUB_INTER]
+    vec![SUB_TAPE, SUB_BYTES, SUB_BLOCK, SUB_HB, SUB_OBS, SUB_DECL, SUB_INTER, SUB_TOKIO]
 }
 
 /// maximal declared lengths and other hand-written vectors
@@ -544,6 +609,13 @@ pub fn run(env: &mut Env) -> RunResult {
     let n = env.tier.sel(40_000, 500_000);
     env.run_tapes(SUB_TAPE, n, 300)?;
     env.run_tapes(SUB_INTER, n / 8, 500)?;
+    // (a failing case takes five seconds to be recognised as parked: few shrink attempts)
+    env.shrink_iters = 6;
+    let r = env.run_tapes(SUB_TOKIO, env.tier.sel(500, 8_000), 300);
+    env.shrink_iters = 4096;
+    r?;
+    env.require("c03.inside-tokio-task", "decoded-inside-a-tokio-task");
+    env.require("c03.inside-tokio-task", "in-task:large-publish");
     env.require("c03.interleaved", "decode-while-another-is-parked");
     env.require("c03.interleaved", "both-inputs-accepted");
     env.note(format!("exhaustive: all byte strings of length <= {} and every 2-byte header followed by {} short bodies", maxlen, SHORT_BODIES.len()));
